@@ -10,7 +10,7 @@ package filesystem
 // inv(FsDb), the data-structure invariant every method requires and preserves (established by NewFilesystemDatabase):
 // MAPS - the maps exist and are distinct objects; ENT - every known alias has a config, an artifact entry and
 // metadata whose config file name contains a dot.
-//@ let MAPS = fsdb != nil && fsdb.configs != nil && fsdb.artifacts != nil && fsdb.fsMetadata != nil && fsdb.profiles != nil && fsdb.subscribersOf != nil && fsdb.configs != fsdb.artifacts && fsdb.configs != fsdb.fsMetadata && fsdb.artifacts != fsdb.fsMetadata && fsdb.profiles != fsdb.configs && fsdb.profiles != fsdb.artifacts && fsdb.profiles != fsdb.fsMetadata
+//@ let MAPS = fsdb != nil && fsdb.configs != nil && fsdb.artifacts != nil && fsdb.fsMetadata != nil && fsdb.profiles != nil && fsdb.subscribersOf != nil && fsdb.configs != fsdb.artifacts && fsdb.configs != fsdb.fsMetadata && fsdb.artifacts != fsdb.fsMetadata && fsdb.profiles != fsdb.configs && fsdb.profiles != fsdb.artifacts && fsdb.profiles != fsdb.fsMetadata && fsdb.subscribersOf != fsdb.configs && fsdb.subscribersOf != fsdb.artifacts && fsdb.subscribersOf != fsdb.fsMetadata && fsdb.subscribersOf != fsdb.profiles
 //@ let ENT = (forall a string :: has(fsdb.configs, a) ==> fsdb.configs[a] != nil && has(fsdb.artifacts, a) && fsdb.artifacts[a] != nil && has(fsdb.fsMetadata, a) && fsdb.fsMetadata[a] != nil && contains(deref(fsdb.fsMetadata[a]).configFileName, "."))
 
 // artifactFileName: the config path with everything from its last dot on replaced by ".pem" (C10, C18)
@@ -105,3 +105,53 @@ package filesystem
 //@   let ALIAS = (if certContent.Alias != "" then certContent.Alias else strSlice(configPath, lastIndex(configPath, "/") + 1, lastIndex(configPath, ".")))
 //@   ensures @C18 old(has(fsdb.fsMetadata, ALIAS)) && old(deref(fsdb.fsMetadata[ALIAS]).configFileName) != configPath ==> err != nil
 //@   ensures @C18 !old(has(fsdb.fsMetadata, ALIAS)) ==> err == nil && has(fsdb.configs, ALIAS) && fsdb.configs[ALIAS] != nil && deref(fsdb.configs[ALIAS]).Alias == ALIAS && has(fsdb.fsMetadata, ALIAS) && fsdb.fsMetadata[ALIAS] != nil && deref(fsdb.fsMetadata[ALIAS]).configFileName == configPath && has(fsdb.artifacts, ALIAS) && fsdb.artifacts[ALIAS] != nil
+//@   ensures @C18,C20 MAPS
+//@   ensures @C18,C20 forall a string :: has(fsdb.fsMetadata, a) ==> fsdb.fsMetadata[a] != nil && contains(deref(fsdb.fsMetadata[a]).configFileName, ".")
+//@   let NEW = !old(has(fsdb.fsMetadata, ALIAS))
+//@   let RL = old(len(fsdb.rootAliases))
+//@   let SL = old(if has(fsdb.subscribersOf, certContent.Issuer) then len(fsdb.subscribersOf[certContent.Issuer]) else 0)
+//@   ensures @C18 NEW && certContent.Issuer == "" ==> len(fsdb.rootAliases) == RL + 1 && fsdb.rootAliases[RL] == ALIAS && (forall k in [0, RL) :: fsdb.rootAliases[k] == old(fsdb.rootAliases[k]))
+//@   ensures @C18 NEW && certContent.Issuer == "" ==> (forall a string :: has(fsdb.subscribersOf, a) == old(has(fsdb.subscribersOf, a)) && fsdb.subscribersOf[a] == old(fsdb.subscribersOf[a]))
+//@   ensures @C18 NEW && certContent.Issuer != "" ==> fsdb.rootAliases == old(fsdb.rootAliases) && has(fsdb.subscribersOf, certContent.Issuer) && len(fsdb.subscribersOf[certContent.Issuer]) == SL + 1 && fsdb.subscribersOf[certContent.Issuer][SL] == ALIAS && (forall k in [0, SL) :: fsdb.subscribersOf[certContent.Issuer][k] == old(fsdb.subscribersOf[certContent.Issuer][k]))
+//@   ensures @C18 NEW && certContent.Issuer != "" ==> (forall a string :: a != certContent.Issuer ==> has(fsdb.subscribersOf, a) == old(has(fsdb.subscribersOf, a)) && fsdb.subscribersOf[a] == old(fsdb.subscribersOf[a]))
+//@   ensures @C18 !NEW ==> fsdb.rootAliases == old(fsdb.rootAliases) && (forall a string :: has(fsdb.subscribersOf, a) == old(has(fsdb.subscribersOf, a)) && fsdb.subscribersOf[a] == old(fsdb.subscribersOf[a]))
+
+// The directory walk's callback (C18): directories and names without one of the three configuration suffixes (in any
+// letter case) are passed over without being opened; a file is imported only if it parsed as a certificate
+// configuration, under the path it was found at; files that do not parse are skipped without an error.
+//@ func importFiles$1 returns (res)
+//@   props C18 C20
+//@   uses strings.smt2
+//@   let MAPSF = deref(fsdb) != nil && deref(fsdb).configs != nil && deref(fsdb).artifacts != nil && deref(fsdb).fsMetadata != nil && deref(fsdb).profiles != nil && deref(fsdb).subscribersOf != nil && deref(fsdb).configs != deref(fsdb).artifacts && deref(fsdb).configs != deref(fsdb).fsMetadata && deref(fsdb).artifacts != deref(fsdb).fsMetadata && deref(fsdb).profiles != deref(fsdb).configs && deref(fsdb).profiles != deref(fsdb).artifacts && deref(fsdb).profiles != deref(fsdb).fsMetadata && deref(fsdb).subscribersOf != deref(fsdb).configs && deref(fsdb).subscribersOf != deref(fsdb).artifacts && deref(fsdb).subscribersOf != deref(fsdb).fsMetadata && deref(fsdb).subscribersOf != deref(fsdb).profiles
+//@   requires MAPSF
+//@   requires forall a string :: has(deref(fsdb).fsMetadata, a) ==> deref(fsdb).fsMetadata[a] != nil && contains(deref(deref(fsdb).fsMetadata[a]).configFileName, ".")
+//@   noframe
+//@   let NAME = callres("invoke:io/fs.DirEntry.Name", 1, 0)
+//@   let ISDIR = callres("(io/fs.FileMode).IsDir", 1, 0)
+//@   let SUFFIX = hasSuffix(toLower(NAME), ".yaml") || hasSuffix(toLower(NAME), ".yml") || hasSuffix(toLower(NAME), ".json")
+//@   let PARSED = callres("gopki/generator/config.ParseConfig", 1, 0)
+//@   let IMPORT = "(*gopki/generator/db/filesystem.FsDb).importCertConfigFile"
+//@   assume forall x string :: hasSuffix(toLower(entryName(d)), x) ==> hasSuffix(toLower(path), x)
+//@   atcall @C18 invoke:io/fs.FS.Open !ISDIR && SUFFIX
+//@   atcall @C18 (*gopki/generator/db/filesystem.FsDb).importCertConfigFile !ISDIR && SUFFIX && callres("gopki/generator/config.ParseConfig", 1, 1) == nil && typeis(PARSED, "*gopki/generator/config.CertificateContent") && configPath == path && certContent == deref(typed(unboxRef(PARSED), "*gopki/generator/config.CertificateContent"))
+//@   ensures @C18 err != nil ==> res == err && !called("invoke:io/fs.FS.Open", 1)
+//@   ensures @C18 err == nil && called("gopki/generator/config.ParseConfig", 1) && callres("gopki/generator/config.ParseConfig", 1, 1) != nil ==> res == nil && !called("(*gopki/generator/db/filesystem.FsDb).importCertConfigFile", 1)
+//@   ensures @C18 err == nil && called("gopki/generator/config.ParseConfig", 1) && callres("gopki/generator/config.ParseConfig", 1, 1) == nil && typeis(PARSED, "*gopki/generator/config.CertificateContent") ==> called("(*gopki/generator/db/filesystem.FsDb).importCertConfigFile", 1)
+//@   ensures @C18 called("(*gopki/generator/db/filesystem.FsDb).importCertConfigFile", 1) ==> res == callres("(*gopki/generator/db/filesystem.FsDb).importCertConfigFile", 1, 0)
+//@   ensures @C18 called("invoke:io/fs.FS.Open", 1) && callres("invoke:io/fs.FS.Open", 1, 1) == nil ==> called("gopki/generator/config.ParseConfig", 1)
+//@   ensures @C18 err == nil && called("(io/fs.FileMode).IsDir", 1) && !ISDIR && called("invoke:io/fs.DirEntry.Name", 1) && SUFFIX ==> called("invoke:io/fs.FS.Open", 1)
+//@   ensures @C18,C20 MAPSF
+//@   ensures @C18,C20 forall a string :: has(deref(fsdb).fsMetadata, a) ==> deref(fsdb).fsMetadata[a] != nil && contains(deref(deref(fsdb).fsMetadata[a]).configFileName, ".")
+
+// importFiles: only a filesystem database can be filled from a directory.
+//@ func importFiles returns (err)
+//@   props C18
+//@   noframe
+//@   ensures @C18 !typeis(backend, "*gopki/generator/db/filesystem.FsDb") ==> err != nil
+
+// Open: the directory is imported and then checked; an inconsistent hierarchy is an error.
+//@ func (*FsDb).Open returns (err)
+//@   props C18
+//@   noframe
+//@   ensures @C18 err == nil ==> called("gopki/generator/db.IsConsistent", 1) && callres("gopki/generator/db.IsConsistent", 1, 0) && callres("gopki/generator/db/filesystem.importFiles", 1, 0) == nil
+
